@@ -37,7 +37,8 @@ def main(argv):
             for mac in MACS:
                 for enc in (("auto", "no") if cfg["priv"] else ("auto",)):
                     for body in ("resp", "report"):
-                        for mis in (None, "user", "engine", "msgid", "rid", "msgid-2^31", "rid-2^31", "rid+2^32"):
+                        for mis in (None, "user", "user-extended", "user-prefix", "user-empty", "engine", "engine-extended", "engine-prefix",
+                                    "engine-empty", "msgid", "rid", "msgid-2^31", "rid-2^31", "rid+2^32"):
                             if mis and (mac != "valid" or enc != "auto") and not thorough:
                                 continue
                             spec = {"vbs": vb.hex(), "mac": mac, "encrypt": enc}
@@ -45,8 +46,20 @@ def main(argv):
                                 spec["pdu_tag"] = 0xA8
                             if mis == "user":
                                 spec["user"] = b"mallory".hex()
+                            elif mis == "user-extended":
+                                spec["user"] = (cfg["user"] + "x").encode().hex()
+                            elif mis == "user-prefix":
+                                spec["user"] = cfg["user"][:-1].encode().hex()
+                            elif mis == "user-empty":
+                                spec["user"] = ""
                             elif mis == "engine":
                                 spec["engine"] = "80001f8880ffffffff"
+                            elif mis == "engine-extended":
+                                spec["engine"] = "80001f8880a1b2c3d4" + "00"
+                            elif mis == "engine-prefix":
+                                spec["engine"] = "80001f8880a1b2c3"
+                            elif mis == "engine-empty":
+                                spec["engine"] = ""
                             elif mis == "msgid":
                                 spec["msgid"] = 4242
                             elif mis == "rid":
@@ -101,7 +114,7 @@ def main(argv):
                                 {"scenario": dict(sc, steps=[st]), "case": mt, "outcome": out}, key="forged-delivered:" + cls)
     return c.finish(
         rule="%d otherwise-matching replies: MAC {valid, zero, random, one bit flipped, absent (auth flag clear)} x {encrypted as configured, "
-             "sent in clear} x {GetResponse, Report} x mismatching {none, user, engine id, msgID, request-id} x {SHA-1, MD5 password, "
+             "sent in clear} x {GetResponse, Report} x mismatching {none; user / engine id different, extended, truncated, empty; msgID and request-id different or differing only above bit 30} x {SHA-1, MD5 password, "
              "MD5+DES, SHA-1+AES} sessions; every case distinct and non-trivial" % n,
         extra={"replies": n, "traces_validated_against_impl": n})
 
